@@ -77,11 +77,14 @@ var spvVersions = []spirv.Version{spirv.Version1_0, spirv.Version1_1, spirv.Vers
 
 // riskyKnobs: generator features that hit a recorded defect of the SPIR-V path; each is enabled alone
 // in a share of the programs so that the finding keeps being reproduced and everything else stays clean.
-var riskyKnobs = []string{"rawShift", "clz", "privInit", "swBreak", "absU", "vecInit"}
+var riskyKnobs = []string{"rawShift", "clz", "privInit", "swBreak", "absU", "vecInit", "fround"}
 
 func setKnob(o *wgenOpts, k string) {
 	o.negInit, o.vecInit, o.rawShift, o.clz, o.privInit, o.swBreak, o.absU, o.shadowUse = false, false, false, false, false, false, false, false
+	o.fround = true // SPIR-V: GLSL.std.450 RoundEven since fix 487639f
 	switch k {
+	case "fround":
+		o.froundBoost, o.floats = true, true
 	case "rawShift":
 		o.rawShift = true
 	case "clz":
